@@ -9,9 +9,11 @@ from vf import detsched as ds
 class Peer:
     """Crazyflie side of the radio link."""
 
-    def __init__(self, supports_safelink=True, echo_garbage=False):
+    def __init__(self, supports_safelink=True, echo_garbage=False, bare_idle=False):
         self.supports_safelink = supports_safelink
         self.echo_garbage = echo_garbage
+        self.bare_idle = bare_idle      # with nothing to send the acknowledgement carries no payload at all (no filler packet)
+        self.bare_acks = 0
         self.safelink = False
         self.up = 0
         self.down = 0
@@ -43,6 +45,11 @@ class Peer:
             self.accepted.append(frame)
             if self.safelink:
                 self.up ^= 1
+        if self.safelink and self.bare_idle and not self.txq and (frame[0] & 0x04) != (self.down << 2):
+            # nothing new for the host: bare acknowledgement, the downlink counter stays where it is
+            self.bare_acks += 1
+            self.last_ack = b''
+            return self.last_ack
         if not self.safelink or (frame[0] & 0x04) != (self.down << 2):
             if self.safelink:
                 self.down ^= 1
